@@ -220,10 +220,10 @@ func genClientCase(t *rapid.T, hostile bool) *Case {
 		for i := 0; i < nh; i++ {
 			op := Op{S: -1, Ns: pick(t, times, "hat"), N: 777}
 			switch k := uni(t, 100, "hk"); {
-			case k < 45:
+			case k < 34:
 				op.K = "rraw"
 				op.Msg = genHostileRouterMsg(t, ordinal, invID)
-			case k < 60:
+			case k < 46:
 				// PPT fields as another, hostile client could set them
 				op.K = "rraw"
 				sub := 9999
@@ -239,6 +239,12 @@ func genClientCase(t *rapid.T, hostile bool) *Case {
 					invID++
 					op.Msg = &RawMsg{Type: 68, Fields: []V{VID(uint64(invID)), VID(uint64(idOf(pick(t, regs, "preg").ord))), details, args}}
 				}
+			case k < 54 && len(regs) > 0:
+				// three or four progressive chunks in a row for a handler that does not return per chunk
+				invID++
+				chunkedID[invID] = true
+				op.K, op.N, op.Ref = "rinvokeprog", invID, fmt.Sprint(pick(t, regs, "preg").ord)
+				op.Opts = []KV{{"chunks", VInt(3 + uni(t, 2, "hchunks"))}, {"gap", VI64(0)}}
 			case k < 61 && len(regs) > 0:
 				// the same INVOCATION three times at once
 				invID++
@@ -247,7 +253,7 @@ func genClientCase(t *rapid.T, hostile bool) *Case {
 					c.Ops = append(c.Ops, Op{K: "rinvoke", S: -1, Ns: op.Ns, N: invID, Ref: fmt.Sprint(reg)})
 				}
 				op.K, op.N, op.Ref = "rinvoke", invID, fmt.Sprint(reg)
-			case k < 64:
+			case k < 67:
 				// a progressive RESULT or an ERROR for some request, wanted or not
 				op.K = "rraw"
 				req := VID(uint64(1 + uni(t, ordinal+2, "preq")))
@@ -256,11 +262,11 @@ func genClientCase(t *rapid.T, hostile bool) *Case {
 				} else {
 					op.Msg = &RawMsg{Type: 8, Fields: []V{VI64(int64(pick(t, []int{48, 32, 64, 16, 34, 66}, "petype"))), req, VDict(), VURI("wamp.error.canceled")}}
 				}
-			case k < 70:
+			case k < 73:
 				op.K = "rgoodbye"
-			case k < 78:
+			case k < 80:
 				op.K = "rabort"
-			case k < 86:
+			case k < 87:
 				op.K = "rdrop"
 			default:
 				op.K = "rraw"
@@ -371,6 +377,8 @@ type rig struct {
 	handlerCancelled map[wamp.ID]bool
 	interrupted map[wamp.ID]bool
 	interruptedWhileRunning map[wamp.ID]bool
+	invOnWire map[wamp.ID]bool
+	handlerDone map[wamp.ID]bool
 	running   map[wamp.ID]bool
 	progSeen  map[int][]int // call ordinal -> progress seq seen by handler
 	progAfterReturn map[int]bool
@@ -739,7 +747,7 @@ func execClientRig(c *Case, trace bool, prop string) Verdict {
 	v := Verdict{Kind: "ok", Prop: prop}
 	r := &rig{c: c, prop: prop, hostile: prop == "C17", t0: time.Now(), results: map[int]*apiResult{}, ops: map[int]*Op{}, keep: trace,
 		cancels: map[wamp.ID][]string{}, callReq: map[int]wamp.ID{}, reqOrd: map[wamp.ID]int{}, invAnswers: map[wamp.ID]int{}, invSent: map[wamp.ID]int{},
-		handlerRuns: map[wamp.ID]int{}, handlerCancelled: map[wamp.ID]bool{}, interrupted: map[wamp.ID]bool{}, interruptedWhileRunning: map[wamp.ID]bool{}, running: map[wamp.ID]bool{},
+		handlerRuns: map[wamp.ID]int{}, handlerCancelled: map[wamp.ID]bool{}, interrupted: map[wamp.ID]bool{}, interruptedWhileRunning: map[wamp.ID]bool{}, invOnWire: map[wamp.ID]bool{}, handlerDone: map[wamp.ID]bool{}, running: map[wamp.ID]bool{},
 		progSeen: map[int][]int{}, progAfterReturn: map[int]bool{}, evSeq: map[int][]int{}, evSent: map[int]int{}, undone: map[int]bool{}, routerDone: make(chan struct{}), labels: map[string]int{}}
 	r.invCh, r.invOnce = map[wamp.ID]chan struct{}{}, map[wamp.ID]*sync.Once{}
 	r.invKind, r.invTimeout = map[wamp.ID]string{}, map[wamp.ID]bool{}
@@ -830,7 +838,6 @@ func execClientRig(c *Case, trace bool, prop string) Verdict {
 					return
 				}
 				r.label("invocation_sent")
-				r.invOnce[inv].Do(func() { close(r.invCh[inv]) })
 				r.mu.Lock()
 				r.invSent[inv]++
 				if r.invSent[inv] == 1 {
@@ -838,7 +845,12 @@ func execClientRig(c *Case, trace bool, prop string) Verdict {
 					r.invTimeout[inv] = optInt(op, "timeout") > 0
 				}
 				r.mu.Unlock()
-				r.routerSend(&wamp.Invocation{Request: inv, Registration: idOf(ord), Details: details, Arguments: wamp.List{int(inv)}})
+				if r.routerSend(&wamp.Invocation{Request: inv, Registration: idOf(ord), Details: details, Arguments: wamp.List{int(inv)}}) {
+					r.mu.Lock()
+					r.invOnWire[inv] = true
+					r.mu.Unlock()
+				}
+				r.invOnce[inv].Do(func() { close(r.invCh[inv]) }) // INTERRUPTs scripted relative to it follow it on the wire
 			})
 		case "rinvokeprog":
 			ord := 0
@@ -899,7 +911,8 @@ func execClientRig(c *Case, trace bool, prop string) Verdict {
 				r.label("interrupt_sent")
 				r.mu.Lock()
 				r.interrupted[inv] = true
-				if r.running[inv] {
+				if r.invOnWire[inv] && !r.handlerDone[inv] {
+					// the INVOCATION is on its way or being handled: this INTERRUPT is for it
 					r.interruptedWhileRunning[inv] = true
 				}
 				r.mu.Unlock()
@@ -1209,6 +1222,7 @@ func (r *rig) runAPI(op *Op) {
 			defer func() {
 				r.mu.Lock()
 				r.running[inv.Request] = false
+				r.handlerDone[inv.Request] = true
 				r.mu.Unlock()
 			}()
 			switch kind {
@@ -1613,7 +1627,7 @@ func (r *rig) judge() string {
 			if r.interruptedWhileRunning[inv] {
 				r.labels["interrupt_while_running"]++
 				if !r.handlerCancelled[inv] {
-					return fmt.Sprintf("INTERRUPT for invocation %d was sent while its handler was running, the handler's context was never cancelled", inv)
+					return fmt.Sprintf("INTERRUPT for invocation %d was sent after the INVOCATION and before its handler finished, the handler's context was never cancelled", inv)
 				}
 			}
 			if r.invTimeout[inv] {
